@@ -30,6 +30,10 @@ var attrTemplates = []string{
 	"a" + hA + hA + "\nb",                   // 13 soft / hard breaks
 	"<b" + hA + hA + "\n\n<xmp>" + hA,       // 14 html block
 	"a <b" + hA + "> <xmp" + hA + ">",       // 15 inline raw html
+	"<div>\n<" + hA + "<" + hA + ">",         // 16 '<' inside a tag name in an HTML block
+	"- <div>\n \t" + hA + "\n",              // 17 partially consumed tab inside an HTML block in a list item
+	">\t<div>\n>\t" + hA,                    // 18 the same in a block quote
+	"```" + hA + "&#32;" + hA + "\nx\n```",    // 19 info string with a character reference
 }
 
 func c10Input(kind, a int) []byte {
